@@ -1,12 +1,15 @@
 """C01 — CBOR round trip (K-enc + K-dec through the composite RT command)."""
 import genb
+from vlib import xhex
 from props.codec_common import *
 
-THEOREMS = ["C01_roundtrip", "C01_deterministic_idempotent", "C01_decode_encode"]
+THEOREMS = ["C01_serde_route", "C01_serde_route_filled", "C01_roundtrip", "C01_deterministic_idempotent", "C01_decode_encode"]
 REPEAT = 2            # case lines repeated 66 000 times on one thread (state that builds up over many calls)
 REPEAT_CMDS = ('RT',)
 RELEASE = True          # debug and release builds of the harness (debug_assert!, overflow checks, cfg(debug_assertions))
-RULE = ("RT <bundle>: the implementation encodes, decodes its own output and encodes again; bundles drawn over the C01 domain "
+RULE = ("SERDE <bundle>: to_cbor, then serde_cbor::to_vec(&bundle) (the crate's second public encoding route, a definite-length outer array): bytes "
+        "against the model and the Python reference, and what the decoder makes of them; every RT line additionally asks try_from(Vec<u8>), "
+        "serde_cbor::from_slice and from_reader and fails on any disagreement (ALTDIFF). RT <bundle>: the implementation encodes, decodes its own output and encodes again; bundles drawn over the C01 domain "
         "(0-40 extension blocks plus 22/23/24/25/300-block cases, every CRC type and prior CRC state per block, dtn/ipn/none "
         "EIDs with multi-byte names, boundary-biased u64 fields, fragments, unknown block types, empty payloads); non-trivial = "
         "distinct line whose bundle has at least one extension block or a CRC")
@@ -20,16 +23,37 @@ def _line(b):
 
 def corpus():
     # + sizes the model cannot evaluate (65536+ array elements, blocks beyond 64 KiB): implementation against the reference encoder
-    return [_line(b) for b in boundary_bundles()] + genb.BIG_CASES
+    return [_line(b) for b in boundary_bundles()] + genb.BIG_CASES + [_serde(b) for b in boundary_bundles()]
+
+
+def _serde(b):
+    return "SERDE " + genb.show_bundle(b)
 
 
 def cases(rng, tier):
-    return [_line(b) for b in bundle_cases(rng, 1500 if tier == "quick" else 150000)] + pair_lines(rng, 300 if tier == "quick" else 30000, _line)
+    out = [_line(b) for b in bundle_cases(rng, 1500 if tier == "quick" else 150000)] + pair_lines(rng, 300 if tier == "quick" else 30000, _line)
+    # the second public encoding route (serde's Serialize for Bundle: definite-length outer array), bytes and decoding
+    out += [_serde(b) for b in bundle_cases(rng, 400 if tier == "quick" else 40000)]
+    return out
 
 
 def oracle(line, out, mode):
     if line.startswith("RTBIG "):
         return genb.judge_rtbig(line, out)
+    if line.startswith("SERDE "):
+        if not out.startswith("OK x"):
+            return "serde's Serialize for Bundle does not complete: %s" % out[:40]
+        b = genb.parse_bundle_line(line[6:])
+        ref, nb = genb.ref_bundle(b)
+        want = genb.head(4, 1 + len(b["cs"])) + bytes(ref[1:-1])         # definite-length head, the same blocks, no break
+        parts = split_out(out[3:], "DECODED")
+        if len(parts) != 2 or parts[0] != [xhex(want)]:
+            return "serde_cbor::to_vec(&bundle) is not the definite-length array of the bundle's blocks"
+        if parts[1][0] != "OK":
+            return "the library cannot decode what its own Serialize impl emits"
+        if genb.parse_bundle(genb.T(parts[1][1:])) != nb:
+            return "decoded bundle differs from the serialized one"
+        return None
     if out.startswith("ALTDIFF "):
         return ("the public routes for one step disagree: %s gives another result than Bundle::try_from(&[u8]) / to_cbor on the "
                 "same bundle" % out[8:])
